@@ -3,6 +3,7 @@ package simrt
 import (
 	"reflect"
 	"sort"
+	"sync"
 	"time"
 )
 
@@ -264,4 +265,89 @@ func simTime() (int64, bool) {
 		st.ClockMax = simNow
 	}
 	return simNow, true
+}
+
+// ---------------------------------------------------------------------------
+// sync.Pool seam. What a real pool returns depends on GC timing and per-P
+// caches, which the simulator does not control; instrumented code therefore
+// uses this deterministic pool: LIFO, emptied at the start of every run, and at
+// every Get the tape may pretend that a GC has just emptied it (value 1).
+//
+// The bookkeeping uses a real mutex, so — like the real sync.Pool — handing an
+// object from one goroutine to another through the pool is synchronised for the
+// race detector.
+
+var (
+	poolMu    sync.Mutex
+	poolItems = map[*sync.Pool][]interface{}{}
+)
+
+// PoolGet is the replacement of (*sync.Pool).Get in instrumented code.
+func PoolGet(p *sync.Pool) interface{} {
+	d, on := poolDecision()
+	if !on {
+		return p.Get()
+	}
+	var x interface{}
+	poolMu.Lock()
+	items := poolItems[p]
+	if d&1 == 1 {
+		poolItems[p] = nil
+		items = nil
+	}
+	if n := len(items); n > 0 {
+		x = items[n-1]
+		poolItems[p] = items[:n-1]
+	}
+	poolMu.Unlock()
+	notePool(x != nil, d&1 == 1)
+	if x == nil && p.New != nil {
+		x = p.New()
+	}
+	return x
+}
+
+// PoolPut is the replacement of (*sync.Pool).Put in instrumented code.
+func PoolPut(p *sync.Pool, x interface{}) {
+	if !poolSeamOn() {
+		p.Put(x)
+		return
+	}
+	if x == nil {
+		return
+	}
+	poolMu.Lock()
+	poolItems[p] = append(poolItems[p], x)
+	poolMu.Unlock()
+}
+
+// ResetPools empties all simulated pools (start of a run).
+func ResetPools() {
+	poolMu.Lock()
+	for k := range poolItems {
+		delete(poolItems, k)
+	}
+	poolMu.Unlock()
+}
+
+//go:norace
+func poolSeamOn() bool { return permOn }
+
+//go:norace
+func poolDecision() (uint32, bool) {
+	if !permOn {
+		return 0, false
+	}
+	return next(&poolsS), true
+}
+
+//go:norace
+func notePool(reused, dropped bool) {
+	st.PoolGets++
+	if reused {
+		st.PoolReuses++
+	}
+	if dropped {
+		st.PoolDrops++
+	}
 }
